@@ -296,6 +296,11 @@ func (r *DenseInt32Matrix) MdotM(a, b ConstMatrix) Matrix {
   t1 := int32(0)
   t2 := int32(0)
   if r.storageLocation() == b.storageLocation() {
+    if r.storageLocation() == a.storageLocation() {
+      // r is both the left and the right factor, the left
+      // factor must not change while r is computed
+      a = a.CloneConstMatrix()
+    }
     t3 := make([]int32, n)
     for j := 0; j < m; j++ {
       for i := 0; i < n; i++ {
@@ -338,6 +343,11 @@ func (r *DenseInt32Matrix) MDOTM(a, b *DenseInt32Matrix) Matrix {
   t1 := int32(0)
   t2 := int32(0)
   if r.storageLocation() == b.storageLocation() {
+    if r.storageLocation() == a.storageLocation() {
+      // r is both the left and the right factor, the left
+      // factor must not change while r is computed
+      a = a.Clone()
+    }
     t3 := make([]int32, n)
     for j := 0; j < m; j++ {
       for i := 0; i < n; i++ {
